@@ -1644,7 +1644,16 @@ EnsureSizeAux(uint32 size, bool setNumItems, uint32 extraPreallocs, ItemType ** 
             newQueue[i] = QQ_PlunderItem(GetItemAtUnchecked(i));  // we know that (_itemCount < size)
       }
 
-      if (setNumItems) _itemCount = size;
+      if (setNumItems)
+      {
+         if (IsPerItemClearNecessary() == false)
+         {
+            // new[] doesn't initialize trivial item-types, so the items we are about to add have to be set to the default item explicitly
+            const ItemType & defaultItem = GetDefaultItem();
+            for (uint32 i=_itemCount; i<size; i++) newQueue[i] = defaultItem;
+         }
+         _itemCount = size;
+      }
       _headIndex = 0;
       _tailIndex = _itemCount-1;
 
